@@ -226,3 +226,52 @@ def c17_id_shapes(tier, rng):
         viol.append({"obligation": "C17.id_shapes.nontrivial", "inputs": None, "observed": "no id construction site found", "required": "inventory applies", "undecided": True})
     return {"obligations": obl, "discharged": dis, "violations": viol, "cases": obl, "exhaustive": True, "bound": "all %d construction sites in src/" % sites,
             "samples": [{"site": "construct_fl_isoforms"}]}
+
+
+# ---- ids across the read islands of one gene (pipeline run): every transcript id once per output file -----------------------------------------
+def _island_ids_problems():
+    import gzip, os, shutil
+    from contracts import c_novel, c_profiles
+    d, p = c_novel._run_pipeline([], True, c_profiles._islands_inputs)
+    problems, n = [], 0
+    try:
+        if p.returncode != 0:
+            return ["isoquant exited %d: %s" % (p.returncode, p.stderr[-300:])], 0
+        out = os.path.join(d, "out", "S")
+        for fn in ("S.transcript_models.gtf", "S.extended_annotation.gtf"):
+            seen = {}
+            for line in open(os.path.join(out, fn)):
+                if line.startswith("#"):
+                    continue
+                f = line.rstrip("\n").split("\t")
+                if f[2] in ("transcript", "gene"):
+                    key = (f[2], [kv.strip().split(" ", 1)[1].strip('"') for kv in f[8].split(";") if kv.strip().startswith(f[2] + "_id")][0])
+                    seen[key] = seen.get(key, 0) + 1
+                    n += 1
+            for key, c in sorted(seen.items()):
+                if c != 1:
+                    problems.append("%s: %s %s has %d records" % (fn, key[0], key[1], c))
+        for fn in ("S.transcript_model_counts.tsv", "S.transcript_counts.tsv"):
+            ids = [l.split("\t")[0] for l in open(os.path.join(out, fn)) if not l.startswith("#") and not l.startswith("__")]
+            if len(ids) != len(set(ids)):
+                problems.append("%s lists an id twice: %s" % (fn, sorted(i for i in set(ids) if ids.count(i) > 1)))
+    finally:
+        shutil.rmtree(d, ignore_errors=True)
+    return problems, n
+
+
+def replay_island_ids(d):
+    p, n = _island_ids_problems()
+    return (not p), "islands run: %s" % (p[:4] or "%d gene / transcript records, every id once" % n)
+
+
+@bounded("C17.island_ids", ["C17", "C03"], note="one pipeline run (model construction on) on a synthetic gene whose reads form two islands that do not "
+         "overlap, both assigned to the same reference isoform: every gene and transcript id has exactly one record in transcript_models.gtf "
+         "and extended_annotation.gtf and one row in the count tables")
+def c17_island_ids(tier, rng):
+    p, n = _island_ids_problems()
+    viol = [{"obligation": "C17.island_ids", "inputs": {"scenario": "two read islands of one gene"}, "observed": p[:4],
+             "required": "ids unique within each output file", "replay_call": "contracts.c_id_policy:replay_island_ids"}] if p else []
+    if not p and n == 0:
+        viol = [{"obligation": "C17.island_ids.nontrivial", "inputs": None, "observed": "no records", "required": "some records", "undecided": True}]
+    return {"cases": 1, "bound": "1 pipeline run, 5 reads in 2 islands (%d gene / transcript records)" % n, "violations": viol, "samples": [{"records": n}]}
